@@ -317,6 +317,26 @@ case("derived flag: always recomputed after its operand is bound, so its reads a
 case("derived flag kept: one binding of the operand is not followed by the recomputation", {"m": "def f(r, g):\n    c, a = r()\n    t = a == 7\n    while g(c):\n        if not t:\n            raise ValueError(a)\n        c, a = r()\n    return c\n"},
      "m", "f", has=["t = a == 7"])
 
+case("a counter written `i = i + w(..)` is `i += w(..)`; a copy read only by the next right-hand side is the variable", {"m": "class A(object):\n    def _w(self, d, i):\n        return i + self.t(d[i:])\n    def f(self, d):\n        i = 0\n        while i < len(d):\n            i = self._w(d, i)\n        return i\n"},
+     "m", "f", has=["i += self.t(d[i:])"], lacks=["_i1_i"])
+case("augmented form kept: the variable may hold a list", {"m": "def f(d, g):\n    i = g()\n    i = i + d\n    return i\n"}, "m", "f", has=["i = i + d"])
+
+case("return context of a builtin call is copied onto both arms of a conditional argument", {"m": "def f(d, c, g):\n    return sum(g if c else d) & 255\n"}, "m", "f", has=["return sum(g) & 255", "return sum(d) & 255"])
+case("return context kept: the call is not a builtin", {"m": "def f(d, c, g, h):\n    return h(g if c else d) & 255\n"}, "m", "f", has=[" if c else "])
+
+case("a None test on a value that was just bound to something never None is decided", {"m": "class A(object):\n    def _r(self, x):\n        c = x()\n        if not c:\n            raise ValueError(c)\n        return c, bytes(x())\n    def f(self, x, b):\n        c, d = self._r(x)\n        if c == None:\n            return b\n        b += d\n        return b\n"},
+     "m", "f", lacks=["None"])
+case("None test kept: the value may be None", {"m": "class A(object):\n    def _r(self, x):\n        c = x()\n        return c, bytes(x())\n    def f(self, x, b):\n        c, d = self._r(x)\n        if c == None:\n            return b\n        b += d\n        return b\n"},
+     "m", "f", has=["None"])
+
+case("`len(x) == 0` in a test is `not x`", {"m": "def f(d, k):\n    del d[k]\n    if len(d) == 0:\n        return 1\n    return 0\n"}, "m", "f", has=["if d:"], lacks=["len("])
+case("len comparison kept outside a test / with another bound", {"m": "def f(d, k):\n    if len(d) == 2:\n        return 1\n    return len(d) == 0\n"}, "m", "f", has=["len(d) == 2", "return len(d) == 0"])
+
+case("the last element of a list built by appends is the last value assigned", {"m": "def f(es, m):\n    ins = []\n    for e in es:\n        a = e.addr()\n        if a & m:\n            ins.append(a)\n    r = ins[-1] if ins else None\n    return r\n"},
+     "m", "f", has=["r = None", "r = a"], lacks=["ins"])
+case("last-of kept: the list is read elsewhere too", {"m": "def f(es, m, g):\n    ins = []\n    for e in es:\n        ins.append(e)\n    r = ins[-1] if ins else None\n    return g(r, ins)\n"},
+     "m", "f", has=["ins"])
+
 
 def main():
     bad = 0
